@@ -14,7 +14,11 @@ LEVEL_TEXT = ("TLC runs the character-level scanner of Quote.tla over ALL input 
               "the current tree with exact-size heap inputs. Long random inputs (50-5000 characters) are recorded from the real code and "
               "validated by TLC running the same scanner over them (trace validation). The tok OBJECT is additionally explored with a "
               "history (TokObj.tla): every pair of (separator, source) evaluations over all sources up to 2 (quick) / 3 (thorough) characters and "
-              "every short triple is executed on ONE object through set_src / set_sep, the token list compared after each evaluation.")
+              "every short triple is executed on ONE object through set_src / set_sep, the token list compared after each evaluation. "
+              "Families beyond the small universe (recorded and validated by TLC on the same spec): input sizes n-1, n, n+1 for n = 8..4096, "
+              "delimiter sets of 7..257 characters, every byte value 1..255 in every syntactic position, words/join on long inputs; every "
+              "split / word-utility call is repeated after an adversarial prelude on the same buffer (different content, errno preset) and must "
+              "return the fresh result.")
 LEVEL_NOTE = ("Exhaustive only up to the length bound and over that 7-character alphabet / those 3 delimiter sets; beyond it a few dozen "
               "long random strings. Delimiter sets containing a quote or backslash, and the empty delimiter string, are outside the "
               "universe. get_word/get_pword are claimed for indices 1..num_words only (0 and num_words+1.. are run for memory safety). "
